@@ -80,6 +80,7 @@ def chain(arr: List[int], a: int, b: int, c: int) -> bool:
     counts = [concretise(x) for x in [a, b, c][: len(OPS)]]
     q = ENV.query("$[*]", arr)
     L: List[Tuple[int, Any]] = [(i, arr[i]) for i in range(len(arr))]
+    pending: List[Any] = []  # (taken query, expected) pairs, read only after the original has been driven on
     for op, n in zip(OPS, counts):
         err, newL, extra = _ref(L, op, n)
         try:
@@ -90,9 +91,9 @@ def chain(arr: List[int], a: int, b: int, c: int) -> bool:
                     return ok(False)
             elif op == "take":
                 t = q.take(n)
-                taken = [(int(m.parts[0]), m.obj) for m in t]
-                if not why(err is None and taken == extra, "take", n, taken, extra):
+                if not why(err is None, "take", n, "should have raised"):
                     return ok(False)
+                pending.append((t, extra))
             elif op == "tee":
                 qs = q.tee(n)
                 if not why(err is None and len(qs) == n, "tee count"):
@@ -112,4 +113,11 @@ def chain(arr: List[int], a: int, b: int, c: int) -> bool:
             if not why(err == "ValueError", op, n, "unexpected ValueError"):
                 return ok(False)
         L = newL
-    return ok(why(_view(q) == _view_ref(L), "final", OPS, counts, L))
+    if not why(_view(q) == _view_ref(L), "final", OPS, counts, L):
+        return ok(False)
+    # what take() split off is independent of what happened to the original afterwards
+    for t, extra in pending:
+        taken = [(int(m.parts[0]), m.obj) for m in t]
+        if not why(taken == extra, "taken matches", taken, extra):
+            return ok(False)
+    return ok(True)
